@@ -161,8 +161,9 @@ def mk_job(inp, out, config=None, filters=(), in_name=None, out_name=None, itype
   }
 
 
-def materialise(job, root):
-  """Writes the input (and configuration file) under root/in, returns (argv, out_dir)."""
+def materialise(job, root, cfg_path=None):
+  """Writes the input (and configuration file) under root/in, returns (argv, out_dir).  `cfg_path`: where the configuration file
+  goes instead (the driver gives every job of a history the same path, rewritten before each job, as a batch script would)."""
   ind = os.path.join(root, "in")
   outd = os.path.join(root, "out")
   os.mkdir(ind)
@@ -189,7 +190,7 @@ def materialise(job, root):
   if ftext is None and job.get("config_file") is not None:
     ftext = json.dumps(job["config_file"])
   if ftext is not None:
-    cpath = os.path.join(ind, "cfg.json")
+    cpath = cfg_path or os.path.join(ind, "cfg.json")
     with open(cpath, "w", encoding="utf-8") as f:
       f.write(ftext)
     argv += ["--config_file", cpath]
@@ -1280,7 +1281,7 @@ def _driver_main():
     for k, job in enumerate(payload["jobs"]):
       jr = os.path.join(root, f"j{k}")
       os.mkdir(jr)
-      argv, outd, in_path = materialise(job, jr)
+      argv, outd, in_path = materialise(job, jr, cfg_path=os.path.join(root, "cfg.json"))
       if payload.get("mode") == "ref":
         st, val = ref_convert(job, in_path)
         results.append({"status": st, "value": val})
@@ -1490,8 +1491,9 @@ def fam_config_pairs(thorough):
 
   def decode(i):
     mod, key, a, b, inp, out, fl = table[i]
-    return {"first": mk_job(inp, out, filters=fl, config={mod: {key: copy.deepcopy(a)}}),
-            "second": mk_job(inp, out, filters=fl, config={mod: {key: copy.deepcopy(b)}}),
+    how = "config_file" if i % 2 else "config"   # every other pair passes both values through one, rewritten, configuration file
+    return {"first": mk_job(inp, out, filters=fl, **{how: {mod: {key: copy.deepcopy(a)}}}),
+            "second": mk_job(inp, out, filters=fl, **{how: {mod: {key: copy.deepcopy(b)}}}),
             "module": mod, "key": key, "values": [copy.deepcopy(a), copy.deepcopy(b)]}
   return Family("config-pairs", len(table), decode, check_config_pair, timeout=300, chunk=2,
                 note="two jobs in one fresh interpreter that differ in one configuration value: every documented key x {a valid value "
